@@ -225,6 +225,9 @@ impl Prop for C18 {
 			"two schemas with different canonical forms are assumed not to collide under CRC-64 (fixed PRNG value, so a collision would be a repeatable, inspectable event)".into(),
 		]
 	}
+	fn expected_probes(&self) -> Vec<&'static str> {
+		vec!["fault_header_byte", "fault_truncation", "fingerprint_endianness_cross_checked", "reader_refill_boundary_inside_header", "schema_pairs_checked", "sink_hard_or_zero_fired", "sink_interrupted_fired"]
+	}
 	fn budget(&self, tier: Tier) -> (u64, u64) {
 		match tier {
 			Tier::Quick => (8_000, 60),
